@@ -246,6 +246,11 @@ def beginTx (s : RSys) (writable : Bool) : RTxn :=
   { snap := s.store, start := s.wlog.length, writable := writable, haveWritten := false, finished := false,
     updates := [], reads := [], lists := [] }
 
+/-- seeded change C08-4: the start index is sampled AFTER the bbolt snapshot was opened — the snapshot is the one of
+`atSnap`, the index the one of the later state `atIndex` -/
+def beginTxLateIndex (atSnap atIndex : RSys) (writable : Bool) : RTxn :=
+  { beginTx atSnap writable with start := atIndex.wlog.length }
+
 def setTxn : List (Nat × RTxn) → Nat → RTxn → List (Nat × RTxn)
   | [], id, t => [(id, t)]
   | (i, t') :: r, id, t => if i = id then (id, t) :: r else (i, t') :: setTxn r id t
